@@ -30,6 +30,7 @@ CLAIMED.update({
  "C16": ("E2", "Tree with Lua / Luau / text / hidden / nested / ignored-directory files x .styluaignore at {none, cwd, sub-directory} with 5 pattern lists (directory, wildcard, wildcard + negation, anchored path, basename) x every argument list of <= 2 (thorough: 3) over 8 arguments incl. repeats, overlaps and alternative spellings x 3 glob sets x --respect-ignores x --allow-hidden, in write mode (set of changed files) and in --check summary mode (multiset of processed files): equal to the reference model's selection, each file once, everything else byte-identical.", E2NOTE, E2TECH + "; reference model of selection (gitignore semantics for the pattern alphabet only)", "6/C16"),
  "C17": ("E2", "Inputs {unformatted, formatted, invalid, empty, whitespace-only, CRLF, no final newline, 1 MiB (thorough: 4 and 16 MiB)} x option sets {plain, --verify, format options, range, --check in 4 formats} x --stdin-filepath {none, normal, ignored, ignored + --respect-ignores, normal + --respect-ignores} x with / without stylua.toml: stdout equals the library output under the resolved configuration (input unchanged when skipped, nothing on a parse error with exit 2), --check exit status and unified diff reconstruct, tree snapshot unchanged.", E2NOTE, E2TECH, "6/C17"),
  "C20": ("E2", "Every option x every documented value x the case variants the flag parser accepts x carrier {stylua.toml, flag, .editorconfig key in lower and upper case}: the file on disk equals the library output for the intended Config (on a probe that reveals every option, at 4 column widths, `max_line_length = off`); ~140 malformed stylua.toml files (every key with a character dropped / replaced / upper-cased, values of another type, unknown value / key / table, duplicate key, broken syntax) x 3 targets: exit status 2 and no file modified.", E2NOTE, E2TECH, "6/C20"),
+ "C19": ("E3", "Stateless model checking of the real binary: every ordered list of <= 3 entries over {missing path (main thread logs an error), unparseable file (output thread logs an error), unformatted file (output thread records a diff), formatted file} in --check and write mode with --num-threads 1 and 4; for each, EVERY interleaving of the scheduling points (each operation on the two status atomics, each channel send / receive, the main thread's hand-over to pool.join) with preemption bound 0, 1, 2 (thorough: 3 and unbounded, per-scenario cap reported): exit status and file contents must equal the sequential reference in every schedule; every failing schedule is replayed and must reproduce its trace.", "the scheduler hook (src/cli/verif_sched.rs, cfg stylua_verif) wraps the two statics and the channel; worker threads run free between their scheduling points (they share nothing else); decisions are taken at quiescence only and a replay that diverges is a machinery error; memory orderings weaker than SeqCst are not modelled (the code uses SeqCst)", "stateless model checking: depth-first search over the choice sequences of a cooperative scheduler compiled into the real binary, iterative preemption bounding", "6/C19 + Appendix A"),
 })
 NOT_YET = "check under construction in this session (engine designed in DESIGN.md, not yet registered)"
 def main():
@@ -61,6 +62,7 @@ def main():
         },
         "engines": [
             {"name": "E1", "path": "/verif/mc", "serves_properties": [p for p in CLAIMED if CLAIMED[p][0] == "E1"], "kind_free_text": E1},
+            {"name": "E3", "path": "/verif/mc/src/sched.rs", "serves_properties": ["C19"], "kind_free_text": "E3 schedule explorer: DFS over the choices of the cooperative scheduler hook in the real binary"},
             {"name": "E2", "path": "/verif/mc/src/cli.rs", "serves_properties": [p for p in CLAIMED if CLAIMED[p][0] == "E2"], "kind_free_text": "E2 explorer of the real stylua binary (built from /repo with hooks on) against reference models"},
         ],
         "checks": checks,
